@@ -26,8 +26,9 @@ def sh(cmd, cwd=None, timeout=1800, env=None):
     e = dict(os.environ)
     e["CARGO_NET_OFFLINE"] = "true"
     if cwd and str(cwd).startswith("/tmp/seed/"):
-        # one shared target directory for all scratch worktrees: dependencies are compiled once
-        e["CARGO_TARGET_DIR"] = "/tmp/seed/target"
+        # a PRIVATE target directory per worktree: cargo's artifact hashes are path-independent, so a shared
+        # directory can hand one worktree the library built from another one's sources
+        e["CARGO_TARGET_DIR"] = os.path.join("/tmp/seed/targets", str(cwd).split("/")[3])
     if env:
         e.update(env)
     p = subprocess.run(cmd, cwd=cwd, shell=isinstance(cmd, str), stdout=subprocess.PIPE, stderr=subprocess.STDOUT, text=True,
